@@ -396,7 +396,7 @@ func alphabet2(full bool) []*atom {
 		{Col: "time", Op: ">=", L1: lC2}, {Col: "time", Op: "<", L1: lC3}, {Col: "time", Op: ">=", L1: lR1}, hostA,
 	}
 	if full {
-		a = append(a, &atom{Col: "time", Op: "<", L1: lR2}, &atom{Col: "time", Op: "<=", L1: lC2}, &atom{Col: "uptime", Op: ">=", L1: lC2})
+		a = append(a, &atom{Col: "time", Op: "<", L1: lR2}, &atom{Col: "uptime", Op: ">=", L1: lC2})
 	}
 	return a
 }
